@@ -137,6 +137,8 @@ def run_consume(sc):
 def timed_scenarios(seed, tier):
     yield {'kind': 'timed', 'interference': True, 'timeout': 30}
     for kind in ('fifo', 'lifo'):
+        yield {'kind': 'timed', 'arm_before_start': True, 'queue': kind, 'times': 3, 'period': 0.06, 'timeout': 30}
+    for kind in ('fifo', 'lifo'):
         for deferred in (False, True, None):
             for times in (1, 2, 4):
                 yield {'kind': 'timed', 'queue': kind, 'deferred': deferred, 'times': times, 'period': 0.06,
@@ -159,6 +161,21 @@ def run_timed(sc):
             if n != 9:
                 return False, 'a times=8 source plus a one-shot posted %d events in all, expected 9: a later timed post ' \
                               'disturbed a running source' % n, 'runner'
+            return True, ''
+        finally:
+            stop_all([ao])
+    if sc.get('arm_before_start'):
+        # a source armed before the chart is started keeps running through start_at
+        try:
+            p, n = sc['period'], sc['times']
+            post = ao.post_fifo if sc['queue'] == 'fifo' else ao.post_lifo
+            post(Event(signal='C10_TICK'), period=p, times=n, deferred=True)
+            time.sleep(0.3 * p)
+            ao.start_at(fn)
+            time.sleep((n + 3) * p + 0.3)
+            got = [x[0] for x in log].count('C10_TICK')
+            if got != n:
+                return False, 'times=%d armed before start_at: %d postings were dispatched' % (n, got), 'start_at'
             return True, ''
         finally:
             stop_all([ao])
